@@ -13,11 +13,14 @@ mod c14;
 mod c17;
 mod c20;
 mod c21;
+mod c22;
 mod c23;
 mod c24;
 mod c27;
 mod c28;
 mod c30;
+mod c31;
+mod c33;
 mod c35;
 mod c37;
 mod c42;
@@ -38,11 +41,14 @@ pub fn run(item: &str, repo: &str, out: &str) -> Result<String, String> {
         c17::run,
         c20::run,
         c21::run,
+        c22::run,
         c23::run,
         c24::run,
         c27::run,
         c28::run,
         c30::run,
+        c31::run,
+        c33::run,
         c35::run,
         c37::run,
         c42::run,
